@@ -50,6 +50,24 @@ Definition layout_eqb (a b : layout) : bool :=
   opt_eqb point_eqb (l_origin a) (l_origin b) && opt_eqb stretch_eqb (l_extent a) (l_extent b)
   && opt_eqb padding_eqb (l_padding a) (l_padding b) && opt_eqb alignment_eqb (l_alignment a) (l_alignment b).
 
+(* ---- any two operands: `other and type(self) == type(other) and ...` ------------------------
+   GOther stands for None and for any object of another type (both make every geometry __eq__ falsy);
+   every geometry object except an all-empty Layout is truthy, and Layout.__eq__ has no `other and`. *)
+Inductive gval :=
+| GOther | GSize (a : size) | GPoint (a : point) | GStretch (a : stretch) | GPadding (a : padding)
+| GAlign (a : alignment) | GLayout (a : layout).
+
+Definition gval_eqb (a b : gval) : bool :=
+  match a, b with
+  | GSize x, GSize y => size_eqb x y
+  | GPoint x, GPoint y => point_eqb x y
+  | GStretch x, GStretch y => stretch_eqb x y
+  | GPadding x, GPadding y => padding_eqb x y
+  | GAlign x, GAlign y => alignment_eqb x y
+  | GLayout x, GLayout y => layout_eqb x y
+  | _, _ => false
+  end.
+
 (* ---- __hash__ : CPython's hash on floats / enum members / None / ints is abstract ---- *)
 Section Hash.
   Variable hq : Q -> Z.            (* hash(float) *)
@@ -72,25 +90,12 @@ Section Hash.
   Definition layout_hash (a : layout) : Z :=
     hint (opt_hash point_hash (l_origin a) * 7 + opt_hash stretch_hash (l_extent a) * 11
           + opt_hash padding_hash (l_padding a) * 13 + opt_hash alignment_hash (l_alignment a) * 5 + 17).
+  Definition gval_hash (a : gval) : Z :=
+    match a with
+    | GOther => hnone | GSize x => size_hash x | GPoint x => point_hash x | GStretch x => stretch_hash x
+    | GPadding x => padding_hash x | GAlign x => alignment_hash x | GLayout x => layout_hash x
+    end.
 End Hash.
-
-(* ---- any two operands: `other and type(self) == type(other) and ...` ------------------------
-   GOther stands for None and for any object of another type (both make every geometry __eq__ falsy);
-   every geometry object except an all-empty Layout is truthy, and Layout.__eq__ has no `other and`. *)
-Inductive gval :=
-| GOther | GSize (a : size) | GPoint (a : point) | GStretch (a : stretch) | GPadding (a : padding)
-| GAlign (a : alignment) | GLayout (a : layout).
-
-Definition gval_eqb (a b : gval) : bool :=
-  match a, b with
-  | GSize x, GSize y => size_eqb x y
-  | GPoint x, GPoint y => point_eqb x y
-  | GStretch x, GStretch y => stretch_eqb x y
-  | GPadding x, GPadding y => padding_eqb x y
-  | GAlign x, GAlign y => alignment_eqb x y
-  | GLayout x, GLayout y => layout_eqb x y
-  | _, _ => false
-  end.
 
 (* ---- Size.from_string --------------------------------------------------------------- *)
 (* ^(((?P<value>\d+(\.\d+)?)(?P<unit>px|em|%|c|pt))|0)$  with re.search *)
